@@ -24,6 +24,8 @@ func main() {
 		os.Exit(check(os.Args[2:]))
 	case "loops":
 		loops(os.Args[2:])
+	case "scan":
+		scan(os.Args[2:])
 	default:
 		fmt.Fprintln(os.Stderr, "unknown command")
 		os.Exit(2)
@@ -103,5 +105,28 @@ func loops(args []string) {
 	}
 	for _, l := range g.Loops(*pkg, *fn) {
 		fmt.Println(l)
+	}
+}
+
+// scan: list the determinism sites (C15) and the writes to package-level state (C18) of the module
+func scan(args []string) {
+	fs := flag.NewFlagSet("scan", flag.ExitOnError)
+	repo := fs.String("repo", "/repo", "repository root")
+	fs.Parse(args)
+	g, err := vc.Load(*repo, []string{"/verif/ext", "/verif/specs"})
+	if err != nil {
+		fmt.Fprintln(os.Stderr, "load:", err)
+		os.Exit(2)
+	}
+	fmt.Println(g.ModulePackagePaths())
+	for _, s := range g.ScanDet() {
+		fmt.Printf("%-70s %s %s\n", s.ID(), s.Pos, s.Note)
+	}
+	fmt.Println(g.SharedNodeTypeNames())
+	for _, s := range g.ScanNodeStores() {
+		fmt.Printf("%-70s %s %s\n", s.ID(), s.Pos, s.Note)
+	}
+	for _, s := range g.ScanGlobalWrites() {
+		fmt.Printf("%-70s %s %s\n", s.ID(), s.Pos, s.Note)
 	}
 }
